@@ -1265,3 +1265,185 @@ func (c *Ctx) appendsWire(h *ssa.Function) bool {
 	}
 	return false
 }
+
+// dominatingConds lists the branch conditions every path to block b has taken (condition, truth value), innermost last.
+func dominatingConds(b *ssa.BasicBlock) []struct {
+	Cond  ssa.Value
+	Taken bool
+	At    *ssa.If
+} {
+	var out []struct {
+		Cond  ssa.Value
+		Taken bool
+		At    *ssa.If
+	}
+	for d := b.Idom(); d != nil; d = d.Idom() {
+		iff := core.BlockIf(d)
+		if iff == nil || len(d.Succs) != 2 {
+			continue
+		}
+		for i, s := range d.Succs {
+			if len(s.Preds) == 1 && (s == b || s.Dominates(b)) {
+				out = append(out, struct {
+					Cond  ssa.Value
+					Taken bool
+					At    *ssa.If
+				}{iff.Cond, i == 0, iff})
+			}
+		}
+	}
+	return out
+}
+
+// checkPresenceExact implements R9.8.
+func (c *Ctx) checkPresenceExact(encs []encEntry) {
+	r := c.R
+	n := 0
+	ord := map[string]int{}
+	for _, e := range encs {
+		if e.field == "" {
+			continue
+		}
+		n++
+		ord[e.fn.Name()]++
+		key := fmt.Sprintf("data.%s/presence:%s#%d", e.fn.Name(), e.field, ord[e.fn.Name()])
+		var bad []string
+		for _, dc := range dominatingConds(e.call.Block()) {
+			cond := dc.Cond
+			if u, ok := cond.(*ssa.UnOp); ok && u.Op == token.NOT {
+				cond = u.X
+			}
+			if f := c.existsCond(cond); f != "" {
+				if f != e.field {
+					bad = append(bad, fmt.Sprintf("emission depends on %s.Exists() at %s", f, c.P.Pos(dc.At.Pos())))
+				}
+				continue
+			}
+			bo, isBin := cond.(*ssa.BinOp)
+			if !isBin {
+				continue // iterator Done(), predicate helpers: judged by R9.5 / R9.6
+			}
+			switch bo.Op {
+			case token.EQL, token.NEQ, token.LSS, token.GTR, token.LEQ, token.GEQ:
+			default:
+				continue
+			}
+			// the one admissible value comparison: Mode against the default-permission function
+			if e.field == "Mode" {
+				isDef := false
+				for _, side := range []ssa.Value{bo.X, bo.Y} {
+					if call, ok := core.Unconv(side).(*ssa.Call); ok && call.Call.StaticCallee() != nil {
+						if _, isRepo := c.P.PkgOf(call.Call.StaticCallee()); isRepo && !strings.HasPrefix(call.Call.StaticCallee().Name(), "Field") && call.Call.StaticCallee().Signature.Recv() == nil {
+							isDef = true
+						}
+					}
+				}
+				if isDef {
+					continue
+				}
+			}
+			bad = append(bad, fmt.Sprintf("emission of %s additionally depends on the comparison at %s: a present value can be dropped", e.field, c.P.Pos(bo.Pos())))
+		}
+		r.Check(len(bad) == 0, "R9.8", key, c.P.Pos(e.call.Pos()), e.field+" is emitted whenever it is present (Mode: and differs from the default)", uniqJoin(bad))
+	}
+	r.Floor("R9.8", n, 8)
+}
+
+// checkPackedCount implements R9.9.
+func (c *Ctx) checkPackedCount() {
+	r := c.R
+	n := 0
+	for _, fn := range c.P.RepoFuncs {
+		rel, ok := c.P.PkgOf(fn)
+		if !ok || rel != "data" || !c.P.HandWritten(fn) {
+			continue
+		}
+		for _, li := range rangeLoops(fn) {
+			if li.kind != "slice" {
+				continue
+			}
+			if li.rng == nil {
+				continue
+			}
+			ex, ok := resolveLocal(li.rng).(*ssa.Extract)
+			if !ok || ex.Index != 0 {
+				continue
+			}
+			call, ok := ex.Tuple.(*ssa.Call)
+			if !ok || !isPW(call, "ConsumeBytes") {
+				continue
+			}
+			// a counter incremented in the body?
+			counts := false
+			for _, ins := range li.header.Instrs {
+				if phi, ok := ins.(*ssa.Phi); ok && phi.Comment != "rangeindex" && isIntegerType(phi.Type()) {
+					counts = true
+				}
+			}
+			for b := range li.body {
+				for _, ins := range b.Instrs {
+					if st, ok := ins.(*ssa.Store); ok && isIntegerType(st.Val.Type()) {
+						if add, ok := st.Val.(*ssa.BinOp); ok && add.Op == token.ADD {
+							if k, isK := core.ConstInt(add.Y); isK && k == 1 {
+								counts = true
+							}
+						}
+					}
+				}
+			}
+			if !counts {
+				continue
+			}
+			n++
+			key := "data." + fn.Name() + "/packed-count"
+			good, seenTest := false, false
+			what := ""
+			for b := range li.body {
+				iff := core.BlockIf(b)
+				if iff == nil {
+					continue
+				}
+				bo, ok := iff.Cond.(*ssa.BinOp)
+				if !ok {
+					continue
+				}
+				isElem := func(v ssa.Value) bool {
+					u, ok := core.Unconv(v).(*ssa.UnOp)
+					if !ok || u.Op != token.MUL {
+						return false
+					}
+					ia, ok := u.X.(*ssa.IndexAddr)
+					return ok && ia.X == li.rng
+				}
+				kx, xIsK := core.ConstInt(bo.X)
+				ky, yIsK := core.ConstInt(bo.Y)
+				switch {
+				case isElem(bo.X) && yIsK:
+					seenTest = true
+					good = (bo.Op == token.LSS && ky == 128) || (bo.Op == token.LEQ && ky == 127) || (bo.Op == token.GEQ && ky == 128) || (bo.Op == token.GTR && ky == 127)
+					what = fmt.Sprintf("byte %s %d", bo.Op, ky)
+				case isElem(bo.Y) && xIsK:
+					seenTest = true
+					good = (bo.Op == token.GTR && kx == 128) || (bo.Op == token.GEQ && kx == 127) || (bo.Op == token.LEQ && kx == 128) || (bo.Op == token.LSS && kx == 127)
+					what = fmt.Sprintf("%d %s byte", kx, bo.Op)
+				default:
+					// (byte & 0x80) ==/!= 0
+					for _, pair := range [][2]ssa.Value{{bo.X, bo.Y}, {bo.Y, bo.X}} {
+						if and, ok := core.Unconv(pair[0]).(*ssa.BinOp); ok && and.Op == token.AND {
+							if k0, ok := core.ConstInt(pair[1]); ok && k0 == 0 {
+								m1, ok1 := core.ConstInt(and.Y)
+								m2, ok2 := core.ConstInt(and.X)
+								if (ok1 && m1 == 128 && isElem(and.X)) || (ok2 && m2 == 128 && isElem(and.Y)) {
+									seenTest, good = true, bo.Op == token.EQL || bo.Op == token.NEQ
+									what = "byte & 0x80"
+								}
+							}
+						}
+					}
+				}
+			}
+			r.Check(seenTest && good, "R9.9", key, c.P.Pos(firstPos(li.header)), "elements of the packed run are counted as the bytes with the continuation bit clear ("+what+")", "the packed run's element count does not test the continuation bit exactly (found: "+what+"): runs containing a 0x80 byte are miscounted")
+		}
+	}
+	r.Floor("R9.9", n, 1)
+}
